@@ -537,6 +537,18 @@ func (rw *rawWorld) send(r rawReq) (res rawResp) {
 				fatal("encrypt: %v", err)
 			}
 			body = cborBytes(enc)
+		case r.Variant == "zero-keys":
+			// keys an unfinished key exchange might hold: all-zero bytes of the cipher's key sizes
+			c := rw.ciph.Suite()
+			zc := kex.SessionCrypter{ID: rw.ciph, Cipher: c, SEK: make([]byte, c.EncryptAlg.KeySize())}
+			if c.MacAlg != 0 {
+				zc.SVK = make([]byte, c.MacAlg.KeySize())
+			}
+			enc, err := zc.Encrypt(rand.Reader, cbor.RawBytes(body))
+			if err != nil {
+				fatal("encrypt: %v", err)
+			}
+			body = cborBytes(enc)
 		}
 	}
 	if r.Typ == 64 && r.Wf {
